@@ -346,7 +346,7 @@ def run(ctx):
         e.setdefault("dt_given", "")
         e.setdefault("dt_official", "")
         e.setdefault("foreign", False)
-    send = [{k: e[k] for k in e if k not in ("detail", "what", "conc", "step")} for e in events]
+    send = [{k: e[k] for k in e if k not in ("detail", "what", "step")} for e in events]
     failed, trivial = judge(ctx, "StrictnessTrace", "StrictnessTrace.cfg", send)
     byid = {e["id"]: e for e in events}
     for e in events:
